@@ -7,10 +7,13 @@ import (
 
 	"filippo.io/age/xverif/props/c01"
 	"filippo.io/age/xverif/props/c02"
+	"filippo.io/age/xverif/props/c03"
 	"filippo.io/age/xverif/props/c05"
 	"filippo.io/age/xverif/props/c07"
 	"filippo.io/age/xverif/props/c08"
 	"filippo.io/age/xverif/props/c09"
+	"filippo.io/age/xverif/props/c10"
+	"filippo.io/age/xverif/props/c11"
 	"filippo.io/age/xverif/props/c12"
 	"filippo.io/age/xverif/props/c13"
 	"filippo.io/age/xverif/props/c18"
@@ -20,11 +23,14 @@ var checks = map[string]func(tier string){
 	"C01": c01.RunC01,
 	"C04": c01.RunC04,
 	"C02": c02.Run,
+	"C03": c03.Run,
 	"C05": c05.RunC05,
 	"C06": c05.RunC06,
 	"C07": c07.Run,
 	"C08": c08.Run,
 	"C09": c09.Run,
+	"C10": c10.Run,
+	"C11": c11.Run,
 	"C12": c12.Run,
 	"C13": c13.Run,
 	"C18": c18.Run,
